@@ -11,9 +11,15 @@ it equals that cycle's source up to nil/empty identification (`approxEq`).
 As in Props/C06.lean the observation is normalised with `dropCaps` (the driver: `canon ∘ dropCaps`, with
 `canon` a `partial def`); the `_norm` variants say what is needed of the normalisation.
 
-The model of the current tree is rejected on `reset-nil-ptr-panics` (`repo_not_correct`).
+The model of the current tree is rejected on `reset-nil-ptr-panics` (`repo_not_correct`) — that is the tree at
+the pinned commit (`GenCfg.original`). `section CurrentTree`: `GenCfg.repo` has both switches Reset reads off
+(`resetM_repo`, Proofs/ResetCurrent.lean), so the first half holds of the emitter as it stands: `resetN_current`,
+`reset_norm_current`, `reset_current`; since the Copy `fix:` commits the same holds of the second half
+(`cycleModelWith_repo`, Proofs/CopyCurrent.lean): `cycle_step_current`, `cycle_norm_current`, `cycle_current`.
 -/
 import InspectorModel.Proofs.C08
+import InspectorModel.Proofs.ResetCurrent
+import InspectorModel.Proofs.CopyCurrent
 import InspectorModel.Spec.CopyObs
 set_option linter.unusedSimpArgs false
 set_option linter.unusedVariables false
@@ -113,8 +119,75 @@ theorem repo_not_correct :
 
 /-- The copy-side classes show in cycles too (`copy-nil-elem-panics` here: `dense` has a nil `*Inner` element). -/
 theorem repo_not_correct_cycle :
-    cycleAccepts [dense] (cycleModelWith dropCaps { GenCfg.repo with resetNilPtrPanics := false } exNode dense [dense]) = false := by
+    cycleAccepts [dense] (cycleModelWith dropCaps { GenCfg.original with resetNilPtrPanics := false } exNode dense [dense]) = false := by
   decide
 end NonVacuity
+
+/-! ### The tree as it is now
+
+After the `fix:` commits that concern Reset (nil pointer-to-scalar fields / nil pointer elements, typed-nil
+roots) no switch that `resetN`/`resetM` consult (`resetNilPtrPanics`, `nilRootPanics`) is left on in
+`GenCfg.repo`: the model of the current tree *is* the repaired model, for every argument form. Since the six
+`fix:` commits that concern Copy the same is true of `copyN` (`CopyCurrent.copyN_repo`), hence of the observed
+Reset-then-CopyTo history `cycleModelWith` (`cycleModelWith_repo`). -/
+section CurrentTree
+
+theorem resetN_repo (n : Node) (v : Val) : resetN GenCfg.repo n v = resetN GenCfg.fixed n v :=
+  ResetCurrent.resetN_repo n v
+
+theorem resetM_repo (n : Node) (f : Form) (v : Val) : resetM GenCfg.repo n f v = resetM GenCfg.fixed n f v :=
+  ResetCurrent.resetM_repo n f v
+
+/-- The emitted reset code at any node, emitter as it stands: no panic, the result is well-typed and empty. -/
+theorem resetN_current (n : Node) (v : Val) (hwf : NodeWF n = true) (hwt : WT n v = true) :
+    ∃ r, resetN GenCfg.repo n v = .ok r ∧ WT n r = true ∧ isEmptyV r = true := by
+  rw [resetN_repo]; exact resetN_correct n v hwf hwt
+
+theorem reset_norm_current (norm : Val → Val) (hnorm : ∀ v, isEmptyV (norm v) = isEmptyV v)
+    (n : Node) (v : Val) (f : Form) (hwf : NodeWF n = true) (hwt : WT n v = true) :
+    resetAccepts f (resetObsOfWith norm (resetM GenCfg.repo n f v)) = true := by
+  rw [resetM_repo]; exact reset_correct_norm norm hnorm n v f hwf hwt
+
+/-- C08, first half, for the emitter as it stands: Reset through every argument form, as the driver judges it. -/
+theorem reset_current (n : Node) (v : Val) (f : Form) (hwf : NodeWF n = true) (hwt : WT n v = true) :
+    resetAccepts f (resetObsOfWith dropCaps (resetM GenCfg.repo n f v)) = true := by
+  rw [resetM_repo]; exact reset_correct n v f hwf hwt
+
+/-- The witness on which the tree at the pinned commit was rejected is accepted now. -/
+example : resetAccepts .ptr (resetObsOfWith dropCaps (resetM GenCfg.repo exNode .ptr sparse)) = true := by decide
+
+theorem cycleModelWith_repo (norm : Val → Val) (n : Node) (srcs : List Val) (d : Val) :
+    cycleModelWith norm GenCfg.repo n d srcs = cycleModelWith norm GenCfg.fixed n d srcs :=
+  CopyCurrent.cycleModelWith_repo norm n srcs d
+
+/-- One Reset-then-CopyTo cycle on a well-typed destination, emitter as it stands. -/
+theorem cycle_step_current (n : Node) (d s : Val) (hwf : NodeWF n = true) (hwd : WT n d = true) (hws : WT n s = true)
+    (hk : KeysOK true n s = true) :
+    ∃ r c, resetN GenCfg.repo n d = .ok r ∧ isEmptyV r = true ∧
+      copyN GenCfg.repo n true r s = .ok c 0 ∧ WT n c = true ∧ approxEq s c = true := by
+  obtain ⟨r, c, h1, h2, h3, h4, h5⟩ := cycle_step n d s hwf hwd hws hk
+  exact ⟨r, c, by rw [resetN_repo]; exact h1, h2, by rw [CopyCurrent.copyN_repo]; exact h3, h4, h5⟩
+
+theorem cycle_norm_current (norm : Val → Val) (n : Node) (hwf : NodeWF n = true)
+    (hn1 : ∀ v, isEmptyV (norm v) = isEmptyV v)
+    (hn2 : ∀ s v, WT n v = true → approxEq s (norm v) = approxEq s v)
+    (srcs : List Val) (d : Val) (hwd : WT n d = true) (hs : ∀ s ∈ srcs, WT n s = true ∧ KeysOK true n s = true) :
+    cycleAccepts srcs (cycleModelWith norm GenCfg.repo n d srcs) = true := by
+  rw [cycleModelWith_repo]; exact cycle_correct_norm norm n hwf hn1 hn2 srcs d hwd hs
+
+/-- C08, second half, for the emitter as it stands: every history of Reset-then-CopyTo cycles on one
+destination, as the driver judges it. -/
+theorem cycle_current (n : Node) (hwf : NodeWF n = true) (srcs : List Val) (d : Val) (hwd : WT n d = true)
+    (hs : ∀ s ∈ srcs, WT n s = true ∧ KeysOK true n s = true) :
+    cycleAccepts srcs (cycleModelWith dropCaps GenCfg.repo n d srcs) = true := by
+  rw [cycleModelWith_repo]; exact cycle_correct n hwf srcs d hwd hs
+
+/-- The histories on which the tree at the pinned commit was rejected are accepted now. -/
+example : cycleAccepts [dense] (cycleModelWith dropCaps GenCfg.repo exNode sparse [dense]) = true ∧
+    cycleAccepts [dense] (cycleModelWith dropCaps GenCfg.repo exNode dense [dense]) = true ∧
+    cycleAccepts [sparse, small, dense] (cycleModelWith dropCaps GenCfg.repo exNode dense [sparse, small, dense]) = true := by
+  decide
+
+end CurrentTree
 
 end Inspector.C08
